@@ -66,7 +66,7 @@ declare_fields('InstructionSet', _instructions_config='cfg', _macros_config='cfg
 
 declare_fields('ExpressionNode', value='union')
 
-declare_fields('ParsedOperand', _operand='Operand?', _bytecode='ByteCodePart?', _argument='ByteCodePart?', _operand_str='str')
+declare_fields('ParsedOperand', _operand='Operand', _bytecode='ByteCodePart?', _argument='ByteCodePart?', _operand_str='str')
 declare_fields('Instruction', _config='cfg', _variants='list[InstructionVariant]')
 declare_fields('InstructionVariant', _variant_config='cfg', _operand_parser='OperandParser?')
 declare_fields('OperandSet', _name='str', _config='cfg', _ordered_operand_list='list[Operand]')
